@@ -148,7 +148,7 @@ def gen_exhaustive(sc, label, sigma, maxlen, level, fam):
     cfg = write_cfg(sc, "gen_%s.cfg" % label,
                     "SPECIFICATION Spec\nCONSTANTS Sigma = %s\n MaxLen = %d\n Level = %d\n Fam = \"%s\"\nINVARIANT Dump\nCHECK_DEADLOCK FALSE\n"
                     % (setlit(sigma), maxlen, level, fam))
-    r = vlib.run_tlc("RegexGen.tla", cfg, sc.path, workers=1, timeout=600, heap="4g")
+    r = vlib.run_tlc("RegexGen.tla", cfg, sc.path, workers=1, timeout=1500, heap="4g")
     vlib.require_tlc_ok(r, "RegexGen " + label)
     cases = parse_cases(r.out)
     if not cases or len(cases) > r.distinct or (fam != "case" and len(cases) != r.distinct):
@@ -160,7 +160,7 @@ def gen_simulated(sc, label, sigma, num, depth, seed, maxdepth=5, maxlen=12):
     cfg = write_cfg(sc, "sim_%s.cfg" % label,
                     "SPECIFICATION Spec\nCONSTANTS Sigma = %s\n D = %d\n MaxDepth = %d\n MaxLen = %d\nINVARIANT Dump\nCHECK_DEADLOCK FALSE\n"
                     % (setlit(sigma), depth, maxdepth, maxlen))
-    r = vlib.run_tlc("RegexSim.tla", cfg, sc.path, workers=1, simulate=num, depth=depth, seed=seed, timeout=600, heap="4g")
+    r = vlib.run_tlc("RegexSim.tla", cfg, sc.path, workers=1, simulate=num, depth=depth, seed=seed, timeout=1500, heap="4g")
     vlib.require_tlc_ok(r, "RegexSim " + label)
     if r.violated:
         raise Broken("RegexSim %s violated %s" % (label, r.violated))
@@ -545,7 +545,7 @@ def report_rejections(chk, build, sc, evs, rej, per_stage=16, stages=3):
 # the check
 # --------------------------------------------------------------------------
 MC_QUICK = ["A", "A1", "B1", "C1"]
-MC_THOROUGH = ["AT", "A3T", "A1T", "BT", "CT"]
+MC_THOROUGH = ["AT", "A1T", "BT", "CT"]
 INVS = ["TwoFormulations", "SearchIsContextMatch", "SearchFromMatch", "GroupsWF", "ReportSound", "ReportRejectsNonMatch"]
 ASCII4 = [97, 98, 99, NL]
 CASE4 = [97, 65, 98, 66]
@@ -553,7 +553,7 @@ UNI = [955, 923, 233, 201, 1076, 1044, 26085, 128512, NL]      # lambda/Lambda, 
 
 
 def mc_job(sc, name):
-    r = vlib.run_tlc("RegexMC.tla", "RegexMC_%s.cfg" % name, sc.path, workers=4 if name in ("A", "AT", "A3T") else 2,
+    r = vlib.run_tlc("RegexMC.tla", "RegexMC_%s.cfg" % name, sc.path, workers=4 if name in ("A", "AT") else 3,
                      timeout=1500, heap="6g")
     vlib.require_tlc_ok(r, "RegexMC_" + name)
     if r.violated:
@@ -664,7 +664,7 @@ def run():
         chk.cov["exhaustive"] = True
         # the depth-2 family is large: a seeded sample
         rng = __import__("random").Random(S)
-        fam["exh-ab2"] = rng.sample(fam["exh-ab2"], min(len(fam["exh-ab2"]), 60000 if T else 5000))
+        fam["exh-ab2"] = rng.sample(fam["exh-ab2"], min(len(fam["exh-ab2"]), 40000 if T else 5000))
         # ---- phase B/C: run on the real chibi, TLC judges every recorded result
         cases = []
         for name in sorted(fam):
